@@ -2,9 +2,14 @@
 #ifndef VF_RT_H
 #define VF_RT_H
 #ifdef __CPROVER__
+/* LLVM pointer relational compare = address compare.  Inside one object compare the offsets (folds to a constant during
+   symbolic execution for &obj+c1 vs &obj+c2, which keeps `while (item < end)` loops over heap storage decidable);
+   across objects compare the numeric addresses. */
+#define VF_PCMP(p, op, q) (__CPROVER_same_object((p), (q)) ? (__CPROVER_POINTER_OFFSET(p) op __CPROVER_POINTER_OFFSET(q)) : ((u64)(p) op (u64)(q)))
 #define VF_ASSUME(c) __CPROVER_assume(c)
 #else
 #include <stdio.h>
+#define VF_PCMP(p, op, q) ((u64)(p) op (u64)(q))
 #define VF_ASSUME(c) do { if(!(c)) { exit(77); } } while(0)
 #endif
 static inline u8 vf_shl8(u8 a, u32 b){ return (u8)((u32)a << b); }
